@@ -560,6 +560,144 @@ def _crash_case(ctx, st, name, prev, new, pinned, n, m, stale=None):
             "bucket": f"crash/{'pinned' if pinned else 'current'}/{name}/" + ("cut" if m is not None else "boundary")}
 
 
+# --------------------------------------------------------------------------------------------------
+# (ii') the second failure mode: an exception raised inside a write call of a save (Python unwinds)
+import contextlib  # noqa: E402
+import io  # noqa: E402
+
+
+@contextlib.contextmanager
+def raise_in_write(which: str, m: int, exc: BaseException):
+    """make the payload write (`torch.save(data, f)`) / the label write (`f.write(str(iteration))`) of `Checkpointer.save` raise
+    `exc` after `m` bytes have reached the file"""
+    import direct.checkpointer as CK
+
+    real_torch = CK.torch
+
+    class TorchProxy:
+        def __getattr__(self, n):
+            return getattr(real_torch, n)
+
+        def save(self, data, f, *a, **kw):
+            buf = io.BytesIO()
+            real_torch.save(data, buf)
+            f.write(buf.getvalue()[:m])
+            f.flush()
+            raise exc
+
+    class FileProxy:
+        def __init__(self, f):
+            self.f = f
+
+        def write(self, b):
+            self.f.write(b[:m])
+            self.f.flush()
+            raise exc
+
+        def __enter__(self):
+            self.f.__enter__()
+            return self
+
+        def __exit__(self, *a):
+            return self.f.__exit__(*a)
+
+        def __getattr__(self, n):
+            return getattr(self.f, n)
+
+    def popen(path, mode="r", *a, **kw):
+        f = open(path, mode, *a, **kw)
+        return FileProxy(f) if "b" not in mode and "w" in mode else f
+
+    if which == "payload":
+        CK.torch = TorchProxy()
+    else:
+        CK.open = popen
+    try:
+        yield
+    finally:
+        CK.torch = real_torch
+        if which != "payload":
+            del CK.open
+
+
+EXC_SCENARIOS = [("no-prev", [], (5, 1)), ("prev-other-label", [(5, 1)], (12, 2)), ("prev-same-label", [(5, 1), (12, 2)], (12, 3)),
+                 ("resave-latest", [(5, 1)], (5, 2))]
+
+
+def real_exception_state(prev, new, which, m, exc_kind) -> tuple[str, str]:
+    """REAL saves `prev` (complete), then the REAL save `new` whose payload / label write raises after m bytes; the exception
+    unwinds through `save` (its `with` / `finally` clean-up runs) and ends the process.  Returns (verdict before, verdict after)
+    of the real load('latest')."""
+    from direct.checkpointer import Checkpointer
+    from direct.data.lr_scheduler import WarmupMultiStepLR
+    from direct.exceptions import ProcessKilledException
+
+    exc = {0: OSError(28, "No space left on device"), 1: KeyboardInterrupt(), 2: ProcessKilledException(2, "SIGINT")}[exc_kind % 3]
+    with toy.scratch_dir() as d:
+        mdl = torch.nn.Linear(3, 2)
+        o = torch.optim.Adam(mdl.parameters(), lr=0.25)
+        s = WarmupMultiStepLR(o, milestones=[4, 9], gamma=0.5, warmup_factor=0.25, warmup_iterations=4)
+        ck = Checkpointer(pathlib.Path(d), model=mdl, optimizer=o, lr_scheduler=s, __author__="x")
+
+        def fill(sid):
+            with torch.no_grad():
+                for prm in mdl.parameters():
+                    prm.fill_(float(sid))
+        for it, sid in prev:
+            fill(sid)
+            ck.save(it)
+        before = real_load_verdict(d)
+        fill(new[1])
+        try:
+            with raise_in_write(which, m, exc):
+                ck.save(new[0])
+            raised = False
+        except BaseException as e:  # noqa: BLE001
+            raised = e is exc
+        if not raised:
+            raise ToolFailure("the injected exception did not leave Checkpointer.save")
+        return before, real_load_verdict(d)
+
+
+def unwind_codes(n_stmts: int) -> list[int]:
+    """unwindFrom per statement of the save table as the translator reads it (-1 = none)"""
+    from translate.gen import REPO as TREPO
+    from translate.pyexpr import Untranslatable, find_function, parse_file
+    from translate.recipes.c15 import CK, checkpointer_class, save_table_x
+
+    try:
+        tree = parse_file(TREPO / CK)
+        rows = save_table_x(find_function(tree, "Checkpointer.save"), checkpointer_class(tree))
+        out = [-1 if u is None else u for _, u in rows]
+    except Untranslatable:
+        out = []
+    return out if len(out) == n_stmts else [-1, -1, 1, -1, -1, -1, 5, -1]
+
+
+def exception_cases(st, thorough: bool):
+    """(scenario, prev, new, which, m, exc kind, model crash point (n, m'))"""
+    sizes = payload_sizes(st["saves"][0])
+    total = sum(sizes)
+    ops = st["saves"][0]
+    first_w = next(i for i, o in enumerate(ops) if o[0] == "write" and name_code(o[1])[0] in (0, 1))
+    label_w = next(i for i, o in enumerate(ops) if o[0] == "write" and name_code(o[1])[0] in (2, 3))
+    cuts = sorted({0, 1, total // 2, total - 1} | ({total // 3, sizes[0], sizes[0] + 1} if thorough else set()))
+    k = 0
+    for name, prev, new in EXC_SCENARIOS:
+        for m in cuts:
+            n, mm, acc = first_w, m, 0
+            for i, sz in enumerate(sizes):        # which payload write op the m-th byte falls into
+                if m < acc + sz or i == len(sizes) - 1:
+                    n, mm = first_w + i, m - acc
+                    break
+                acc += sz
+            yield name, prev, new, "payload", m, k, (n, mm)
+            k += 1
+        for m in (0, 1):
+            yield name, prev, new, "label", m, k, (label_w, m)
+            k += 1
+
+
 MALFORMED_LAST = ["", "abc", " 12\n", "+12", "-3", "12\n5", "012", "12.0", "\n12", "5 12", "12 ", "\t5\r\n"]
 
 
@@ -587,6 +725,22 @@ def correspondence(ctx: Ctx):
             ops = pinned_ops(new[2], payload_sizes(new[0])) if pinned else new[0]
             for n, m in crash_points(ops, ctx.thorough):
                 yield _crash_case(ctx, st, name, prev, new, pinned, n, m, stale)
+    # (ii') an exception raised inside a write call of the save (payload / label, every scenario incl. re-saving the label
+    # 'latest' points to): the clean-up of the enclosing blocks runs, then the real load('latest')
+    n_stmts = len(st["table"]) // 3 or 8
+    unw = unwind_codes(n_stmts)
+    payload_len = {1: len(st["payloads"][0]), 2: len(st["payloads"][1]), 3: len(st["payloads"][2])}
+    for name, prev, new, which, m, ek, (n, mm) in exception_cases(st, ctx.thorough):
+        def impl_exc(name=name, prev=prev, new=new, which=which, m=m, ek=ek):
+            before, after = real_exception_state(prev, new, which, m, ek)
+            st.setdefault("exc_verdicts", []).append({"scenario": name, "prev": prev, "new": list(new), "which": which, "m": m,
+                                                      "exc": ek, "before": before, "after": after})
+            return after
+        plen = len(st["payloads"][0])
+        groups = [[v for (it, sid) in prev for v in (it, sid, plen)], [new[0], new[1], plen], payload_sizes(st["saves"][0]),
+                  [n, mm], st["table"], unw]
+        yield {"line": "exc " + " | ".join(ints(g) for g in groups), "impl": impl_exc, "nontrivial": True,
+               "bucket": f"exception-in-save/{which}/{name}"}
     # malformed directories: what load('latest') must reject
     pay = st["payloads"][0]
     for txt in MALFORMED_LAST:
@@ -678,7 +832,7 @@ def engine_correspondence(ctx: Ctx, st):
     chain = eng.chain_codes()
     for i in range(ctx.budget(12, 200)):
         c, procs, val, theta = eng.gen_vhistory(rng, k=1 if i % 4 else rng.choice([2, 3]), restart={1: 1, 6: 0, 9: 1}.get(i))
-        kinds = "+".join(sorted({["finish", "vanish", "kill", "crash", "error"][p[0]] for p in procs[:-1]}))
+        kinds = "+".join(sorted({["finish", "vanish", "kill", "crash", "error", "die"][p[0]] for p in procs[:-1]}))
 
         real_scaler = i % 3 == 2        # the engine's own (enabled) GradScaler instead of the counting stand-in
 
@@ -1102,6 +1256,22 @@ def oracle(ctx: Ctx, deep: bool = False):
                             + f" of save({it}) ({v['scenario']}): load('latest') gives `{v['verdict']}`, allowed {sorted(allowed)}",
                             {"op": "crash", "scenario": v["scenario"], "n": v["n"], "m": v["m"], "observed": v["verdict"],
                              "allowed": sorted(allowed)})
+    # (a') an exception inside a write of the save: load('latest') gives what it gave before or the new checkpoint
+    excs = st.get("exc_verdicts")
+    if excs is None:
+        excs = []
+        for name, prev, new, which, m, ek, _ in exception_cases(st, True):
+            b, a = real_exception_state(prev, new, which, m, ek)
+            excs.append({"scenario": name, "prev": prev, "new": list(new), "which": which, "m": m, "exc": ek, "before": b, "after": a})
+    for v in excs:
+        ctx.count(("exc", v["scenario"], v["which"], v["m"]), True, bucket="oracle/exception-in-save/" + v["scenario"])
+        allowed = {v["before"], f"ok 1 {v['new'][0]} {v['new'][1]}"}
+        if v["after"] not in allowed or v["before"].startswith("err"):
+            yield Violation("exception-in-save-corrupts",
+                            f"saves {v['prev']} complete, then save{tuple(v['new'])} whose {v['which']} write raises "
+                            f"{['OSError(ENOSPC)', 'KeyboardInterrupt', 'ProcessKilledException'][v['exc'] % 3]} after {v['m']} bytes "
+                            f"(Python unwinds through save): load('latest') gives `{v['after']}`, allowed {sorted(allowed)}",
+                            {"op": "exception", **v})
     # … and for every non-default constructor option found by introspection (e.g. a pruning option)
     for run in st.get("option_runs", []):
         for name, prev, new, stale in _scenarios(run)[:3]:
@@ -1190,7 +1360,7 @@ def check_vhistory(c, procs, val, theta, out=None, real_scaler=False):
     with toy.scratch_dir() as tmp:
         full = eng.run_vprocess(tmp, ref_c, resume=False, val_steps=val[0], has_val=val[1], aux0=theta[d:] if ini else None,
                                 real_scaler=real_scaler)
-    kinds = "+".join(sorted({["finish", "vanish", "kill", "crash", "error"][p[0]] for p in procs[:-1]})) or "finish"
+    kinds = "+".join(sorted({["finish", "vanish", "kill", "crash", "error", "die"][p[0]] for p in procs[:-1]})) or "finish"
     for i, r in enumerate(out):
         if "failed" in r:
             return ("resume-load-fails", f"process {i} of {procs} cannot start: {r['detail']}")
@@ -1457,6 +1627,9 @@ def replay(rep: dict) -> bool:
                               real_scaler=bool(rep.get("real_scaler"))) not in (None, "misaligned")
     if rep.get("op") == "train-objects":
         return dict(eng.train_objects()).get(rep["key"]) == "dropped"
+    if rep.get("op") == "exception":
+        b, a = real_exception_state([tuple(x) for x in rep["prev"]], tuple(rep["new"]), rep["which"], rep["m"], rep["exc"])
+        return a not in {b, f"ok 1 {rep['new'][0]} {rep['new'][1]}"}
     if rep.get("op") == "restart":
         c = toy._cfg_from_replay(rep)
         return check_restart(c, tuple(rep["val"]), [Fr(v) for v in rep["theta"]], rep["ini"]) is not None
